@@ -216,6 +216,27 @@ func dependsOnCall(v ssa.Value, call *ssa.Call) bool {
 					return true
 				}
 			}
+			// a cell filled by the call through its address: Scan(ctx, &ids)
+			if refs := x.Referrers(); refs != nil {
+				for _, in := range *refs {
+					var handed ssa.Value
+					switch y := in.(type) {
+					case *ssa.MakeInterface:
+						handed = y
+					case *ssa.Call:
+						if y == call {
+							return true
+						}
+					}
+					if handed != nil {
+						for _, a := range call.Call.Args {
+							if a == handed {
+								return true
+							}
+						}
+					}
+				}
+			}
 			// element stores into a make([]T)/array
 			if refs := x.Referrers(); refs != nil {
 				for _, in := range *refs {
@@ -376,10 +397,22 @@ func ruleC01_3(c *Ctx, r *Rep) {
 	for _, ret := range returnsOf(del) {
 		if len(ret.Results) == 2 && isNilConst(retResult(ret, 0)) && isNilConst(retResult(ret, 1)) {
 			nskip++
-			cs := edgeConds(ret.Block())
-			ok := condHas(cs, true, func(v ssa.Value) bool {
-				return cmpOn(v, []token.Token{token.NEQ}, "field:MessageFilter")
+			// every path to this skip (looking into private predicate helpers) has established `filter present`
+			ok, np := true, 0
+			pathsTo(del, ret.Block(), func(cs []Cond) {
+				np++
+				has := false
+				for _, cd := range cs {
+					nc := normCond(cd.V, cd.Pol)
+					if nc.Pol && cmpOn(nc.V, []token.Token{token.NEQ}, "field:MessageFilter") || !nc.Pol && cmpOn(nc.V, []token.Token{token.EQL}, "field:MessageFilter") {
+						has = true
+					}
+				}
+				if !has {
+					ok = false
+				}
 			})
+			ok = ok && np > 0
 			r.Check("C01.3", fmt.Sprintf("C01.3:skip#%d@%s", nskip, fnDeliver), ret.Pos(), ok, "skip only under `filter present`",
 				"deliverToSubscription returns (nil, nil) — no delivery — on a path that is not guarded by the subscription having a filter: unfiltered subscriptions can lose messages")
 		}
@@ -480,7 +513,7 @@ func pullSelect(c *Ctx) *Stmt {
 	for _, s := range c.EntShape().Stmts {
 		if s.Table == "deliveries" && s.Kind == "select" {
 			for _, t := range s.Terms {
-				if c.Key(top(t.Call.Parent())) == fnPullQuery {
+				if c.partOf(t.Call.Parent(), fnPullQuery, 0) {
 					return s
 				}
 			}
